@@ -22,6 +22,9 @@ FINITE = [Finite("sha-crypt-tables-identical", shacrypt.tables_equal, "passlib a
 from contracts import c20_libpass  # noqa: E402
 
 CONTRACTS += c20_libpass.CONTRACTS
+from contracts import c12_extra as _c12x  # noqa: E402
+
+CONTRACTS += [c for c in _c12x.CONTRACTS if c.id.startswith(("ab64_decode[", "b64s_decode["))]  # both packages decode each other's salts
 LEMMAS = c20_libpass.LEMMAS
 MUTANTS = c20_libpass.MUTANTS
 BOUNDED = [Bounded("c20", "harness/c20.py", descr="cross verification passlib <-> libpass on grids", timeout=900)]
